@@ -626,3 +626,29 @@ for _it in UNIT["items"]:
                    Some(Ok(tok)) => lex_post(s, Ok::<Option<TokenData>, SchemeError>(Some(tok.data)), t2),
                    Some(Err(e)) => lex_post(s, Err::<Option<TokenData>, SchemeError>(e), t2),
                } }),"""
+
+
+# rule B1: the locals the ghost text mentions are read from the code
+import re as _re
+_ID = (r"let mut (\w+) = String::new\(\);", "identifier_str")
+_CUR = (r"Some\((\w+)\) => \{\s*let mut \w+ = String::new\(\);", "c")
+def _bind(method, mapping, binds):
+    m = M[method]
+    m["bind"] = binds
+    def sub(t):
+        if isinstance(t, str):
+            for old, new in mapping:
+                t = _re.sub(old, new, t)
+            return t
+        if isinstance(t, dict):
+            return {k: sub(v) for k, v in t.items()}
+        if isinstance(t, (list, tuple)):
+            return type(t)(sub(x) if not (isinstance(x, str) and x in ("before",)) else x for x in t)
+        return t
+    for fld in ("loops", "inserts"):       # the contract has its own binders
+        if fld in m:
+            m[fld] = sub(m[fld])
+_bind("normal_identifier", [(r"\bidentifier_str\b", "${ID}"), (r"seq!\[c\]", "seq![${CUR}]"), (r"Some\(c\)", "Some(${CUR})"),
+                            (r"push\\\(c\\\)", r"push\\(${CUR}\\)")], {"ID": _ID, "CUR": _CUR})
+_bind("quoted_identifier", [(r"\bidentifier_str\b", "${ID}")], {"ID": _ID})
+_bind("string", [(r"\bstring_literal\b", "${LIT}")], {"LIT": (r"let mut (\w+) = String::new\(\);", "string_literal")})
